@@ -472,8 +472,14 @@ Print Assumptions C05_expected_of_source_settings.
 (** the checker on the model's own output: when the observed tokens ARE the model's tokens
     ([corr_gen]), [prop_source_roundtrip] accepts.  Per definition with [cf_def c k sd] (all of its
     recorded instantiations coincidence-free): the per-definition hypotheses of
-    [C05_source_roundtrip], the definition is interned at all, and every interned instantiation is
-    one of the recorded ones ([insts_of c k]) *)
+    [C05_source_roundtrip], the definition is interned at all, and every interned instantiation
+    (labels are in [canon] form) is the [canon] form of a recorded one ([insts_of c k]; coincidence-
+    freeness does not depend on the form: [C05_instantiation_cf_canon]) *)
+Theorem C05_instantiation_cf_canon :
+  forall defs d args, instantiation_cf defs d (map canon args) = instantiation_cf defs d args.
+Proof. exact instantiation_cf_canon. Qed.
+Print Assumptions C05_instantiation_cf_canon.
+
 Theorem C05_checker_accepts_model :
   forall (c : c05_case) (order_tp : bool -> tpath) teq m toks,
   let defs := pg_defs (c5_prog c) in
@@ -492,7 +498,8 @@ Theorem C05_checker_accepts_model :
      (forall lsb, sd_path sd <> order_path_of lsb) /\
      (exists id args, L id = Some (SApp k args)) /\
      (forall id args, L id = Some (SApp k args) ->
-        In args (insts_of c k) /\ map canon args = args /\ compact_fields_okb defs sd args = true)) ->
+        (exists args', In args' (insts_of c k) /\ args = map canon args') /\
+        compact_fields_okb defs sd args = true)) ->
   generate r s teq = Ok m -> emit_module s m = Ok toks -> items_plain s m = true ->
   tg_gen (c5_tg c) = OOk toks ->
   prop_source_roundtrip c = true.
